@@ -849,3 +849,99 @@ package tabular
 //@   use nonsep_mono(hr, hs, rows, a, c-1)
 //@   use nonsep_bounds(hr, hs, rows, a)
 //@   tags C05,C07,C08
+
+//@ -- ---------------------------------------------------------------------
+//@ -- promoted property methods of the four owner types (compiler-synthesised wrappers around propertyImpl)
+//@ -- and the PropertyOwner interface as the measuring callbacks use it
+//@ -- ---------------------------------------------------------------------
+
+//@ func (*Cell).SetProperty
+//@   params o, key, value
+//@   tags C12,C09,C14
+//@   requires o != nil && chainOK(heap[valueProperty.chain], heap[valueProperty.key], heap[valueProperty.val], o.properties)
+//@   requires [key-usable] key != nil && comparable(dyn(key))
+//@   assigns o.properties, new(valueProperty)
+//@   ensures [ok] result == nil && chainOK(heap[valueProperty.chain], heap[valueProperty.key], heap[valueProperty.val], o.properties)
+//@   ensures [map-eq] forall k Iface :: {lookup(heap[valueProperty.chain], heap[valueProperty.key], heap[valueProperty.val], o.properties, k)} lookup(heap[valueProperty.chain], heap[valueProperty.key], heap[valueProperty.val], o.properties, k) == (k == key ? value : lookup(old(heap[valueProperty.chain]), old(heap[valueProperty.key]), old(heap[valueProperty.val]), old(o.properties), k))
+//@   ensures [other-chains-untouched] chainsStable(old(heap[valueProperty.chain]), old(heap[valueProperty.key]), old(heap[valueProperty.val]), heap[valueProperty.chain], heap[valueProperty.key], heap[valueProperty.val], old(alloc))
+
+//@ func (*Cell).GetProperty
+//@   params o, key
+//@   tags C12,C09
+//@   requires o != nil && chainOK(heap[valueProperty.chain], heap[valueProperty.key], heap[valueProperty.val], o.properties)
+//@   assigns nothing
+//@   ensures [get-is-lookup] result == lookup(heap[valueProperty.chain], heap[valueProperty.key], heap[valueProperty.val], o.properties, key)
+
+//@ func (*Row).SetProperty
+//@   params o, key, value
+//@   tags C12,C09,C14
+//@   requires o != nil && chainOK(heap[valueProperty.chain], heap[valueProperty.key], heap[valueProperty.val], o.properties)
+//@   requires [key-usable] key != nil && comparable(dyn(key))
+//@   assigns o.properties, new(valueProperty)
+//@   ensures [ok] result == nil && chainOK(heap[valueProperty.chain], heap[valueProperty.key], heap[valueProperty.val], o.properties)
+//@   ensures [map-eq] forall k Iface :: {lookup(heap[valueProperty.chain], heap[valueProperty.key], heap[valueProperty.val], o.properties, k)} lookup(heap[valueProperty.chain], heap[valueProperty.key], heap[valueProperty.val], o.properties, k) == (k == key ? value : lookup(old(heap[valueProperty.chain]), old(heap[valueProperty.key]), old(heap[valueProperty.val]), old(o.properties), k))
+//@   ensures [other-chains-untouched] chainsStable(old(heap[valueProperty.chain]), old(heap[valueProperty.key]), old(heap[valueProperty.val]), heap[valueProperty.chain], heap[valueProperty.key], heap[valueProperty.val], old(alloc))
+
+//@ func (*Row).GetProperty
+//@   params o, key
+//@   tags C12,C09
+//@   requires o != nil && chainOK(heap[valueProperty.chain], heap[valueProperty.key], heap[valueProperty.val], o.properties)
+//@   assigns nothing
+//@   ensures [get-is-lookup] result == lookup(heap[valueProperty.chain], heap[valueProperty.key], heap[valueProperty.val], o.properties, key)
+
+//@ func (*ATable).SetProperty
+//@   params o, key, value
+//@   tags C12,C09,C14
+//@   requires o != nil && chainOK(heap[valueProperty.chain], heap[valueProperty.key], heap[valueProperty.val], o.properties)
+//@   requires [key-usable] key != nil && comparable(dyn(key))
+//@   assigns o.properties, new(valueProperty)
+//@   ensures [ok] result == nil && chainOK(heap[valueProperty.chain], heap[valueProperty.key], heap[valueProperty.val], o.properties)
+//@   ensures [map-eq] forall k Iface :: {lookup(heap[valueProperty.chain], heap[valueProperty.key], heap[valueProperty.val], o.properties, k)} lookup(heap[valueProperty.chain], heap[valueProperty.key], heap[valueProperty.val], o.properties, k) == (k == key ? value : lookup(old(heap[valueProperty.chain]), old(heap[valueProperty.key]), old(heap[valueProperty.val]), old(o.properties), k))
+//@   ensures [other-chains-untouched] chainsStable(old(heap[valueProperty.chain]), old(heap[valueProperty.key]), old(heap[valueProperty.val]), heap[valueProperty.chain], heap[valueProperty.key], heap[valueProperty.val], old(alloc))
+
+//@ func (*ATable).GetProperty
+//@   params o, key
+//@   tags C12,C09
+//@   requires o != nil && chainOK(heap[valueProperty.chain], heap[valueProperty.key], heap[valueProperty.val], o.properties)
+//@   assigns nothing
+//@   ensures [get-is-lookup] result == lookup(heap[valueProperty.chain], heap[valueProperty.key], heap[valueProperty.val], o.properties, key)
+
+//@ func (*column).SetProperty
+//@   params o, key, value
+//@   tags C12,C09,C14
+//@   requires o != nil && chainOK(heap[valueProperty.chain], heap[valueProperty.key], heap[valueProperty.val], o.properties)
+//@   requires [key-usable] key != nil && comparable(dyn(key))
+//@   assigns o.properties, new(valueProperty)
+//@   ensures [ok] result == nil && chainOK(heap[valueProperty.chain], heap[valueProperty.key], heap[valueProperty.val], o.properties)
+//@   ensures [map-eq] forall k Iface :: {lookup(heap[valueProperty.chain], heap[valueProperty.key], heap[valueProperty.val], o.properties, k)} lookup(heap[valueProperty.chain], heap[valueProperty.key], heap[valueProperty.val], o.properties, k) == (k == key ? value : lookup(old(heap[valueProperty.chain]), old(heap[valueProperty.key]), old(heap[valueProperty.val]), old(o.properties), k))
+//@   ensures [other-chains-untouched] chainsStable(old(heap[valueProperty.chain]), old(heap[valueProperty.key]), old(heap[valueProperty.val]), heap[valueProperty.chain], heap[valueProperty.key], heap[valueProperty.val], old(alloc))
+
+//@ func (*column).GetProperty
+//@   params o, key
+//@   tags C12,C09
+//@   requires o != nil && chainOK(heap[valueProperty.chain], heap[valueProperty.key], heap[valueProperty.val], o.properties)
+//@   assigns nothing
+//@   ensures [get-is-lookup] result == lookup(heap[valueProperty.chain], heap[valueProperty.key], heap[valueProperty.val], o.properties, key)
+
+//@ iface PropertyOwner.SetProperty
+//@   dispatch (*Cell).SetProperty, (*Row).SetProperty, (*ATable).SetProperty, (*column).SetProperty
+//@ iface PropertyOwner.GetProperty
+//@   dispatch (*Cell).GetProperty, (*Row).GetProperty, (*ATable).GetProperty, (*column).GetProperty
+
+//@ func (Cell).TerminalCellWidth
+//@   tags C18,C04,C09
+//@   requires [nested-cell-ok] c.mustCalc && dyn(c.raw) == type[Cell] ==> cellValOK(c.raw.(Cell))
+//@   assigns nothing
+//@   ensures [clamped] result >= 0 && (!c.mustCalc ==> result == max(c.width, 0))
+
+//@ func (Cell).Height
+//@   tags C18,C04,C09
+//@   requires [nested-cell-ok] c.mustCalc && dyn(c.raw) == type[Cell] ==> cellValOK(c.raw.(Cell))
+//@   assigns nothing
+//@   ensures [clamped] result >= 0 && (!c.mustCalc ==> result == (c.height >= 1 ? c.height : (max(c.width, 0) > 0 ? 1 : 0)))
+
+//@ func (Cell).Lines
+//@   tags C18,C04,C09
+//@   requires [nested-cell-ok] c.mustCalc && dyn(c.raw) == type[Cell] ==> cellValOK(c.raw.(Cell))
+//@   assigns new(string)
+//@   ensures [lines-of-text] !c.mustCalc ==> len(result) == nlines(c.str) && forall i int :: {result[i]} 0 <= i && i < len(result) ==> result[i] == line(c.str, i)
